@@ -83,7 +83,7 @@ Steps == [k : {"add_field"}, t : {"integer", "string"}]
          \cup [k : {"acf"}, op : {"sum", "avg", "min", "multiply", "format", "join", "constant"}, src : {<<"a">>, <<"a", "c">>, <<"b">>}]
          \cup [k : {"delete_b", "select_a", "rename_a", "rename_swap", "set_type_a_number", "set_type_a_string", "filter", "sort", "dedup",
                     "duplicate", "delete_first", "concatenate", "concat_head", "concat_tail", "source", "unpivot_b", "find_replace_b", "validate",
-                    "set_pk_a", "set_pk_ab", "concat_ren", "to_int_clear"}]
+                    "set_pk_a", "set_pk_ab", "concat_ren", "to_int_clear", "join_rownum_full"}]
          \cup [k : {"acf_chain"}, first : {<<"a">>, <<"a", "c">>}, op2 : {"sum", "min", "format"}]       \* one call, two fields: cf = sum(first), then cf2 = op2(cf, a)
          \cup [k : {"join"}, agg : {"sum", "avg", "median", "count", "first", "array", "max"}, f : {"a", "b", "n"}]
 
@@ -142,6 +142,7 @@ Enabled(s, pkg) ==
     [] s.k = "join" -> /\ Len(pkg) = 2 /\ pkg[1].name = "res_1" /\ pkg[2].name = "res_2" /\ Has(pkg[1], "a") /\ Has(pkg[2], "a")
                        /\ Has(pkg[1], s.f) /\ ~Has(pkg[2], "j")
                        /\ s.agg \in {"sum", "avg", "median", "max"} => Numeric(Get(pkg[1], s.f)) /\ Get(pkg[1], s.f).tags \subseteq {"int", "num"}
+    [] s.k = "join_rownum_full" -> /\ Len(pkg) = 2 /\ pkg[1].name = "res_1" /\ pkg[2].name = "res_2" /\ Has(pkg[1], "b") /\ ~Has(pkg[2], "j")
     [] s.k = "validate" -> TRUE
 
 Apply(s, pkg) ==
@@ -181,6 +182,10 @@ Apply(s, pkg) ==
     [] s.k = "concat_head" -> <<[name |-> "ch", pk |-> ConcatPk(<<pkg[1]>>), fields |-> ConcatFields(<<pkg[1]>>)]>> \o Tail(pkg)
     [] s.k = "concat_tail" -> SubSeq(pkg, 1, Len(pkg) - 1) \o <<[name |-> "ch", pk |-> ConcatPk(<<pkg[Len(pkg)]>>), fields |-> ConcatFields(<<pkg[Len(pkg)]>>)]>>
     [] s.k = "source" -> Append(pkg, [name |-> "extra", pk |-> <<>>, fields |-> <<F("a", "integer", {"int"}), F("b", "string", {"str"})>>])
+    \* join('res_1', '{#}', 'res_2', '{#}', {j: first(b)}, mode='full-outer'): rows paired by ROW NUMBER (no field of the row); an
+    \* unmatched source row comes out with the target's own fields null
+    [] s.k = "join_rownum_full" -> <<AddField([pkg[2] EXCEPT !.fields = [i \in DOMAIN @ |-> [@[i] EXCEPT !.tags = @ \cup {"null"}]]],
+                                              F("j", Get(pkg[1], "b").type, Get(pkg[1], "b").tags \cup {"null"}))>>
     [] s.k = "join" -> <<AddField(pkg[2], F("j", JoinType(s.agg, Get(pkg[1], s.f).type), JoinTags(s.agg, Get(pkg[1], s.f).tags)))>>
 
 VARIABLES pkg, prog, input
